@@ -3,6 +3,7 @@
 package main
 
 import (
+	"net/url"
 	"bytes"
 	"encoding/json"
 	"strings"
@@ -142,7 +143,12 @@ func init() {
 			}
 			return out
 		}
-		x, err := pub.NewActorFromObject(o, nil)
+		// an actor knows where it lives (the handle shown after its name is @user@host): the id the JSON carries, when it parses
+		var actorID *url.URL
+		if u, err := o.GetURL("id"); err == nil { // as client.FetchUnknown obtains it: through the sanitising accessor
+			actorID = u
+		}
+		x, err := pub.NewActorFromObject(o, actorID)
 		if err != nil {
 			return []int{1}
 		}
